@@ -66,6 +66,49 @@ class Program:
         for c in self.consts:
             self.const_by_name.setdefault(c["name"], []).append(c)
         self._cg = None
+        self._tuple_accessors()
+
+    def _tuple_accessors(self):
+        """Accessor equivalences of the crate's own types: a `&self` method returning a tuple whose i-th component is exactly what a
+        single-value `&self` accessor of the same type returns."""
+        from . import mir as _mir
+        _mir.TUPLE_ACCESSOR_EQUIV.clear()
+        by_ty = {}
+        for k, f in self.fns.items():
+            imp = f.get("impl") or {}
+            st = imp.get("self") or ""
+            if not st or imp.get("trait") or f.get("kind") == "Closure" or len(f.get("inputs") or []) != 1 or not f["inputs"][0].startswith("&") \
+                    or len(f["mir"]["blocks"]) > 12:
+                continue
+            by_ty.setdefault(st, []).append(k)
+
+        def norm(e):
+            return re.sub(r"@bb\d+", "", repr(e))
+        for st, ks in by_ty.items():
+            singles, tuples = {}, []
+            for k in sorted(ks):
+                try:
+                    r = Body(self.fns[k]).expr_local(0)
+                except Exception:
+                    continue
+                while r.k in ("ref", "deref"):
+                    r = r.a[0]
+                if r.k == "agg" and r.a[0] == "tuple" and len(r.a[1]) >= 2:
+                    tuples.append((k, r))
+                elif (self.fns[k].get("output") or "").startswith("&"):
+                    singles.setdefault(norm(r), k)
+            for k, r in tuples:
+                for i, comp in enumerate(r.a[1]):
+                    while comp.k in ("ref", "deref"):
+                        comp = comp.a[0]
+                    if norm(comp) in singles:
+                        _mir.TUPLE_ACCESSOR_EQUIV[(k, i)] = singles[norm(comp)]
+                    elif comp.k == "call" and comp.a[0] in singles.values() and len(comp.a[1]) == 1:
+                        a0 = comp.a[1][0]
+                        while a0.k in ("ref", "deref"):
+                            a0 = a0.a[0]
+                        if a0.k == "arg" and a0.a[0] == 1:
+                            _mir.TUPLE_ACCESSOR_EQUIV[(k, i)] = comp.a[0]
 
     # ---- bodies
     def body(self, key):
